@@ -260,6 +260,20 @@ def mesh_content(draw, fmt):
             sides = sorted(set(skey((f[i], f[(i + 1) % len(f)])) for f in allf for i in range(len(f))))
             E = [list(e) for e in rnd.sample(sides, rnd.randrange(1, min(len(sides), 5) + 1))]
             tags.append("declared-edges=some")
+    # ---- vertices no element uses, at id 0, in the middle, at the last id (all ids of the elements shift accordingly)
+    iso = draw(st.sampled_from([None, None, None, "first", "middle", "last", "first+middle+last"])) if kind != "pointcloud" else None
+    if iso:
+        n0 = len(Vg)
+        at = sorted(set({"first": [0], "middle": [n0 // 2], "last": [n0], "first+middle+last": [0, n0 // 2, n0]}[iso]))
+        newid, Vn, k = {}, [], 0
+        for i in range(n0 + 1):
+            if i in at:
+                Vn.append([0.5 + i, -1.25, 3.0 + k]); k += 1
+            if i < n0:
+                newid[i] = len(Vn); Vn.append(Vg[i])
+        Vg = Vn
+        E = [[newid[v] for v in e] for e in E]; F = [[newid[v] for v in f] for f in F]; C = [[newid[v] for v in c] for c in C]
+        tags.append("unused-vertex=" + iso)
     # ---- coordinates
     pool = draw(st.lists(coord(), min_size=1, max_size=10))
     mode = draw(st.sampled_from(["geom", "pool", "mixed", "mixed"]))
@@ -312,9 +326,28 @@ def attr_spec(draw, k, containers, exotic, force_type=None):
     name = f"{name}{k}"           # distinct names within a case
     vv = attr_value(typ)
     one = vv if dim == 1 else st.lists(vv, min_size=dim, max_size=dim)
-    default = draw(st.one_of(st.none(), vv)) if dim == 1 else None
+    # custom default: a scalar of the attribute's type, for every arity (a vector attribute then reads (d, ..., d) where nothing was written)
+    default = draw(st.one_of(st.none(), vv, vv))
+    if typ == "str" and default is not None and dim > 1:
+        # values written into a vector string attribute are stored with 32 characters (the attribute's own '<U32' type), its default
+        # is not: a longer default would come back cut once the loader has written every element -> outside the documented limit
+        default = default[:32]
     vals = draw(st.lists(st.tuples(st.integers(0, 10 ** 4), one).map(list), max_size=6))
     fill = draw(st.sampled_from([None, None, 1, 2, 3]))
+    if default is not None and draw(st.booleans()):
+        # written values that are falsy (0, False, '') or within an ulp / 1e-12 of the default, against a default that is neither
+        falsy = {"float": 0.0, "int": 0, "bool": False, "complex": 0j, "str": ""}[typ]
+        near = [falsy]
+        if typ == "float" and default == default and abs(default) < 1e300:
+            near += [math.nextafter(default, math.inf), math.nextafter(default, -math.inf), default * (1 + 1e-12), default + 1e-300, -default]
+        if typ == "int":
+            near += [x for x in (default + 1, default - 1, -default) if -2 ** 63 <= x < 2 ** 63]
+        if typ == "complex":
+            near += [default + 1e-13, default.conjugate()]
+        for _ in range(draw(st.integers(1, 3))):
+            x = draw(st.sampled_from(near))
+            row = x if dim == 1 else [draw(st.sampled_from(near + [default])) for _ in range(dim)]
+            vals.append([draw(st.integers(0, 10 ** 4)), row])
     if typ == "str":
         # text values are stored one per line and the empty string is a legal value (and the default): make values that are
         # empty / never set *between* non-empty ones the common case
@@ -386,6 +419,10 @@ def case_strategy(draw, fmt):
     # file name forms: extension in lower / upper / mixed case, dots and a blank in the path; a failing call before the real one
     c["name_form"] = draw(st.sampled_from(["m", "m", "m.v1.2", "my mesh", "sub.dir/m", "Mixed"]))
     c["after_raise"] = draw(st.integers(0, 5)) == 0
+    # another mesh of the same element counts built, saved, loaded and dropped (garbage collected) just before the one under test;
+    # the mesh saved directly or through copy.deepcopy / mouette.mesh.copy / a pickle round trip
+    c["prelude"] = draw(st.integers(0, 4)) == 0
+    c["save_via"] = draw(st.sampled_from(["direct", "direct", "direct", "deepcopy", "mesh.copy", "pickle"]))
     return c
 
 
@@ -770,7 +807,7 @@ def label_case(case, ctx, N):
     fmt, kind = case["fmt"], case["kind"]
     ctx.label("kind=" + kind)
     for t in case.get("tags", []):
-        if t.startswith(("base=", "declared", "polyline=", "coords=")):
+        if t.startswith(("base=", "declared", "polyline=", "coords=", "unused-vertex=")):
             ctx.label(t)
     ar = sorted(set(len(f) for f in case["F"])) if kind == "surface" else []
     if ar:
@@ -807,7 +844,12 @@ def label_case(case, ctx, N):
     for a in case.get("attrs", []):
         ctx.label(f"attr:{a['type']}x{a['dim']}:{'dense' if a['dense'] else 'sparse'}")
         ctx.label("attr-on:" + a["cont"])
-        if a["default"] is not None: ctx.label("attr:custom-default")
+        if a["default"] is not None:
+            ctx.label("attr:custom-default")
+            ctx.label(f"attr:custom-default:x{a['dim']}:{'dense' if a['dense'] else 'sparse'}")
+            aflat = [x for _, v in a["vals"] for x in (v if isinstance(v, list) else [v])]
+            if any((not x) for x in aflat) and a["default"]:
+                ctx.label("attr:falsy-value-vs-nonfalsy-default")
     nonint = any(x != int(x) for x in flat if abs(x) < 1e18) if flat else False
     expr = {"obj": bool(N["E"] or N["F"]), "mesh": bool(N["E"] or N["F"] or N["C"]), "geogram_ascii": bool(N["E"] or N["F"] or N["C"]),
             "off": bool(N["F"]), "tet": bool(N["C"]), "xyz": len(case["V"]) >= 2,
@@ -817,6 +859,37 @@ def label_case(case, ctx, N):
 
 # ================================================================================================ oracle 1 + 2 + 4
 
+def prelude(case, ctx):
+    """Build a *different* mesh with the same element counts (mirrored coordinates, other attribute values), save and load it, then
+    drop every object and collect: a result remembered per object identity / address would resurface in the case proper."""
+    import gc
+    import mouette as M
+    ctx.label("prelude:sibling-mesh-dropped")
+    sib = dict(case)
+    lim = 3e38 if case["fmt"] == "stl" else 1e308
+    sib["V"] = [[max(-lim, min(lim, 0.25 - x)) for x in v][::-1] for v in case["V"]][::-1]
+    sib["attrs"] = [dict(a, fill=(a["fill"] or 0) + 1, vals=[[i + 1, v] for i, v in a["vals"]]) for a in case.get("attrs", [])]
+    d = tempfile.mkdtemp(prefix="c04p_")
+    try:
+        for _ in range(2):
+            ms = build_mesh(sib)
+            p = file_path(d, case, "pre")
+            try:
+                if case.get("ignore") is None:
+                    M.mesh.save(ms, p)
+                else:
+                    M.mesh.save(ms, p, ignore_elements=set(case["ignore"]))
+                if case["fmt"] != "stl" or not stl_is_risky(open(p, "rb").read()):
+                    ls = M.mesh.load(p)
+                    del ls
+            except Exception:
+                pass            # (whatever is wrong here is reported by the case proper)
+            del ms
+            gc.collect()
+    finally:
+        shutil.rmtree(d, ignore_errors=True)
+
+
 def fn_roundtrip(case, ctx):
     import mouette as M
     fmt = case["fmt"]
@@ -824,10 +897,23 @@ def fn_roundtrip(case, ctx):
     set_config(case)
     N = normalise(case["V"], case["E"], case["F"], case["C"], cfg["complete_edges_from_faces"])
     label_case(case, ctx, N)
+    if case.get("prelude"):
+        prelude(case, ctx)
     m = build_mesh(case)
+    via = case.get("save_via", "direct")
+    if via != "direct":
+        import copy, pickle
+        ctx.label("save-via=" + via)
+        ok, m = ctx.call("copy:" + via, (lambda: copy.deepcopy(m)) if via == "deepcopy" else (lambda: M.mesh.copy(m, copy_attributes=True)) if via == "mesh.copy"
+                         else (lambda: pickle.loads(pickle.dumps(m))))
+        if not ok:
+            return
     try:
         s0 = snapshot(m)
     except ValueError as e:
+        if via != "direct":
+            ctx.fail("copy:" + via + ":malformed", str(e))
+            return
         raise AssertionError(f"built mesh malformed: {e}")
     # the normal form the harness computes must be the one the library builds (precondition of every expectation below)
     built_ok = (s0["cls"] == N["cls"] and same_coords(s0["V"], N["V"]) and list(s0["E"]) == N["E"] and s0["F"] == N["F"] and s0["C"] == N["C"]
